@@ -88,7 +88,7 @@ func H_C01_denote(v *V) {
 
 	type occurrence struct {
 		oi, slot int
-		V, key  string
+		V, key   string
 	}
 	var occs []occurrence
 	occ := make([]int, len(c01Opts))
